@@ -9,6 +9,7 @@ import (
 	"os"
 	"path/filepath"
 	"strings"
+	"sync/atomic"
 	"time"
 
 	"verif/internal/run"
@@ -170,6 +171,8 @@ func (lc *liveCase) command(env *run.Env, dir, home, base, simulate string) ([]s
 	return argv, e
 }
 
+var liveRunCounter atomic.Int64
+
 func (lc *liveCase) run(env *run.Env) *liveResult {
 	dir := env.CaseDir()
 	home, base := lc.prepare(env, dir)
@@ -195,6 +198,11 @@ func (lc *liveCase) run(env *run.Env) *liveResult {
 		simulate = filepath.Join(env.Verif, ".work/bin/simcli") + " " + spec
 	}
 	argv, e := lc.command(env, dir, home, base, simulate)
+	// GC stress for every fourth live run: nothing the session depends on
+	// may live only as long as an unreferenced object is not collected.
+	if n := liveRunCounter.Add(1); n%4 == 0 {
+		e = append(e, "GOGC=1")
+	}
 	lr.Argv = argv
 	to := 60 * time.Second
 	if lc.Race {
